@@ -439,28 +439,28 @@ fn rand(
 pub fn run_c01(p: &Params) -> Outcome {
     let nt = |f: &OFacts| f.ready >= 1 && f.pending >= 1 && f.cond_not_stored >= 1;
     let mut out = exh("C01", p, "c01-exh", Flv::Sync, Focus::Values, if p.thorough { 5 } else { 4 }, 2, &nt);
-    out.merge(rand("C01", p, "c01-rand", Flv::Sync, p.n(20_000, 500_000), 60, 300, &nt));
+    out.merge(rand("C01", p, "c01-rand", Flv::Sync, p.n(60_000, 1_000_000), 60, 300, &nt));
     out
 }
 
 pub fn run_c02_seq(p: &Params) -> Outcome {
     let nt = |f: &OFacts| f.wake_obligations >= 1;
     let mut out = exh("C02", p, "c02-exh", Flv::Sync, Focus::Wakes, if p.thorough { 7 } else { 6 }, 3, &nt);
-    out.merge(rand("C02", p, "c02-rand", Flv::Sync, p.n(20_000, 500_000), 30, 200, &nt));
+    out.merge(rand("C02", p, "c02-rand", Flv::Sync, p.n(60_000, 1_000_000), 30, 200, &nt));
     out
 }
 
 pub fn run_c03_seq(p: &Params) -> Outcome {
     let nt = |f: &OFacts| f.none >= 1 && f.subs_created >= 1 && (f.upgrades_ok + f.upgrades_none + f.into_shared) >= 1;
     let mut out = exh("C03", p, "c03-exh", Flv::Sync, Focus::Handles, if p.thorough { 7 } else { 6 }, 2, &nt);
-    out.merge(rand("C03", p, "c03-rand", Flv::Sync, p.n(20_000, 500_000), 20, 120, &nt));
+    out.merge(rand("C03", p, "c03-rand", Flv::Sync, p.n(60_000, 1_000_000), 20, 120, &nt));
     out
 }
 
 pub fn run_c19(p: &Params) -> Outcome {
     let nt = |f: &OFacts| f.count_checks >= 2 && f.subs_created >= 1;
     let mut out = exh("C19", p, "c19-exh", Flv::Both, Focus::Handles, if p.thorough { 7 } else { 6 }, 3, &nt);
-    out.merge(rand("C19", p, "c19-rand", Flv::Both, p.n(20_000, 500_000), 20, 150, &nt));
+    out.merge(rand("C19", p, "c19-rand", Flv::Both, p.n(60_000, 1_000_000), 20, 150, &nt));
     out
 }
 
@@ -469,11 +469,11 @@ pub fn run_c16(p: &Params) -> Outcome {
     let mut out = exh("C16", p, "c16-exh-values", Flv::Both, Focus::Values, if p.thorough { 4 } else { 3 }, 2, &nt);
     out.merge(exh("C16", p, "c16-exh-wakes", Flv::Both, Focus::Wakes, if p.thorough { 6 } else { 5 }, 3, &nt));
     out.merge(exh("C16", p, "c16-exh-handles", Flv::Both, Focus::Handles, if p.thorough { 6 } else { 5 }, 2, &nt));
-    out.merge(rand("C16", p, "c16-rand", Flv::Both, p.n(20_000, 500_000), 40, 250, &nt));
+    out.merge(rand("C16", p, "c16-rand", Flv::Both, p.n(60_000, 1_000_000), 40, 250, &nt));
     // guard scripts
     let seed = p.seed;
     let gen_name = "c16-guards";
-    out.merge(p.cases(gen_name, p.n(20_000, 400_000), |i, out| {
+    out.merge(p.cases(gen_name, p.n(40_000, 600_000), |i, out| {
         out.ev.evaluations += 1;
         let case = json!({"gen": gen_name, "case": i, "seed": seed});
         let mut log = vec![];
